@@ -112,7 +112,7 @@ def static_kernels():
   return out
 
 
-def all_kernels(with_harvest=True, log=None):
+def all_kernels(with_harvest=True, log=None, mixed=False):
   """-> dict name -> (kernel, locator or None, launches)"""
   ks = {}
   seen = set()
@@ -122,7 +122,7 @@ def all_kernels(with_harvest=True, log=None):
     seen.add(id(k))
     ks[name] = (k, loc, [])
   if with_harvest:
-    h = harvest.harvest(log=log)
+    h = harvest.harvest(log=log, mixed=mixed)
     byid = {id(v[0]): n for n, v in ks.items()}
     for key, Ls in h.items():
       k = Ls[0].kernel
